@@ -74,6 +74,9 @@ def check(case):
     lab = ["fac_" + k, "n_%d" % n]
     # reproducibility through numpy's global generator, same callable object
     first = x.copy()
+    if x.size and x.flags.writeable:
+        x[...] = 12345.0          # the caller owns what it got: overwriting it must not change later draws
+    x = first
     second = np.asarray(must(lib(fac, n), "second draw"))
     np.random.random(case.get("burn", 3))
     np.random.seed(case["seed"])
@@ -83,8 +86,12 @@ def check(case):
     if k != "zero" and n >= 2 and np.array_equal(first, second):
         raise Violation("degenerate_stream", "two consecutive draws are identical; %s" % ctx)
     if k == "zero":
-        if not (x == 0).all():
-            raise Violation("zero_not_zero", "zero() returned %s; %s" % (x[:5].tolist(), ctx))
+        import sempler.noise as noise
+        fresh = np.asarray(must(lib(noise.zero(), n), "zero() from a fresh factory"))
+        for nm, arr in (("first call", first), ("second call after the first result was overwritten", second),
+                        ("call after re-seeding", again), ("fresh factory after earlier results were overwritten", fresh)):
+            if arr.shape != (n,) or not (arr == 0).all():
+                raise Violation("zero_not_zero", "zero(): %s returned %s; %s" % (nm, arr[:5].tolist(), ctx))
         return lab
     if k == "uniform":
         lo, hi = pr
@@ -138,14 +145,14 @@ def noise_case(draw):
             "n": draw(st.sampled_from([N_LAW, N_LAW, N_LAW, 0, 1, 5])),
             "seed": draw(st.sampled_from([0, 1]) | st.integers(0, 2 ** 32 - 1)), "burn": draw(st.integers(1, 7))}
     if k == "normal":
-        var = draw(st.sampled_from([0.01, 0.0625, 0.25, 0.5, 0.8, 1, 1.25, 2, 4, 9, 25, 100]))
+        var = draw(st.sampled_from([2.0 ** -40, 1e-9, 1e-6, 0.01, 0.0625, 0.25, 0.5, 0.8, 1, 1.25, 2, 4, 9, 25, 100, 1e6]))
         case["args"] = {"mean": draw(_dy(-64, 64)), "var": var}
     elif k == "uniform":
         lo = draw(_dy(-64, 64))
-        w = draw(st.sampled_from([0.125, 0.5, 1, 1, 2, 3, 10, 100]))
+        w = draw(st.sampled_from([2.0 ** -20, 0.125, 0.5, 1, 1, 2, 3, 10, 100, 4096]))
         case["args"] = {"lo": lo, "hi": lo + w}
     elif k == "laplace":
-        case["args"] = {"mean": draw(_dy(-64, 64)), "scale": draw(st.sampled_from([0.05, 0.25, 0.5, 1, 2, 2.5, 7, 30]))}
+        case["args"] = {"mean": draw(_dy(-64, 64)), "scale": draw(st.sampled_from([2.0 ** -30, 1e-6, 0.05, 0.25, 0.5, 1, 2, 2.5, 7, 30, 1e5]))}
     else:
         case["args"] = {}
     if k != "zero" and draw(st.integers(0, 9)) == 0:
